@@ -1,7 +1,30 @@
 package core
 
+import (
+	"crypto/x509/pkix"
+	"encoding/hex"
+	"unicode/utf8"
+)
+
 type CRLLocations struct {
 	CRLDistributionPoints []string
 	CRLUrl                string
 	CRLFile               string
+}
+
+// NameIdentity returns a string which identifies a distinguished name.
+// pkix.RDNSequence.String() replaces every byte which is not valid UTF-8 (the latin-1 characters of a
+// TeletexString) with the same replacement character, so different names can have the same string form.
+// For such names the raw attribute values are appended
+func NameIdentity(name *pkix.RDNSequence) string {
+	identity := name.String()
+	for _, rdn := range *name {
+		for _, attribute := range rdn {
+			value, isString := attribute.Value.(string)
+			if isString && !utf8.ValidString(value) {
+				identity += "#" + hex.EncodeToString([]byte(value))
+			}
+		}
+	}
+	return identity
 }
